@@ -29,6 +29,12 @@ pub fn exercise_archive(ctx: &mut Ctx, bytes: &[u8], label: &str, class: &str) {
         return;
     }
     let est = estimate(bytes);
+    if let Some(dir) = std::env::var_os("PMVERIF_DUMP") {
+        // debugging aid: materialise every executed input (use with --only)
+        let p = std::path::Path::new(&dir).join(format!("c08_{}_{:016x}.bin", ctx.cur_case(), hash_bytes(bytes)));
+        let _ = std::fs::write(p, bytes);
+        eprintln!("{label}: {est:?}");
+    }
     ctx.count(&format!("class.{class}.inputs"));
     if est.capped {
         // directories legitimately expand past the budget: outside the claim (resource use
